@@ -44,8 +44,14 @@ type queueSpec struct {
 }
 
 type worldConfig struct {
-	Queues     []queueSpec `json:"queues"`
-	InvDepth   int         `json:"inv_depth"`
+	Queues   []queueSpec `json:"queues"`
+	InvDepth int         `json:"inv_depth"`
+	// MixedDepth: requests whose instance name starts with "a" are routed
+	// through an action router with one invocation key extractor less, so
+	// that one size class queue holds invocations with both directly
+	// queued operations and queued child invocations (C04: direct
+	// operations go first).
+	MixedDepth bool        `json:"mixed_depth,omitempty"`
 	RetryCount int         `json:"retry_count"`
 	NActions   int         `json:"n_actions"`
 	NWorkers   int         `json:"n_workers"`
@@ -245,6 +251,15 @@ func newWorld(rt *rapid.T, cfg worldConfig) *world {
 		for i, r := range cfg.Routers {
 			if err := demux.RegisterActionRouter(util.Must(digest.NewInstanceName(r.Prefix)), platforms[r.Platform], mk(fmt.Sprintf("r%d", i))); err != nil {
 				panic(fmt.Sprintf("harness: cannot register action router %+v: %v", r, err))
+			}
+		}
+		router = demux
+	} else if cfg.MixedDepth && cfg.InvDepth >= 1 {
+		demux := routing.NewDemultiplexingActionRouter(platform.ActionKeyExtractor, router)
+		shallow := routing.NewSimpleActionRouter(platform.ActionKeyExtractor, extractors[:cfg.InvDepth-1], w.an)
+		for pi := range platforms {
+			if err := demux.RegisterActionRouter(util.Must(digest.NewInstanceName("a")), platforms[pi], shallow); err != nil {
+				panic(fmt.Sprintf("harness: cannot register the shallow action router: %v", err))
 			}
 		}
 		router = demux
